@@ -463,6 +463,58 @@ def stale_index_deletes(fn: FuncInfo, p: Optional[Program] = None) -> List[Tuple
                 out.append((hit, f"one element of {seq} is deleted by position and the loop is left", True))
                 continue
             out.append((hit, f"positions of {seq} are walked in ascending order ({' '.join(ast.unparse(loop.iter).split())[:60]}) while elements are deleted by position", False))
+    # the work-list form: `while <positions>: del seq[positions.pop(0)]` / `seq.pop(positions.pop())` - the order in which the
+    # positions are consumed is the order of the list (flipped by in-place `.reverse()` calls before the loop) read from the front
+    # (pop(0)) or from the back (pop())
+    for loop in ast.walk(fn.node):
+        if not isinstance(loop, ast.While):
+            continue
+        for n in ast.walk(ast.Module(body=loop.body, type_ignores=[])):
+            idx_e = tgt_seq = None
+            if isinstance(n, ast.Delete):
+                for t in n.targets:
+                    if isinstance(t, ast.Subscript):
+                        idx_e, tgt_seq = t.slice, ast.unparse(t.value)
+            elif isinstance(n, ast.Call) and isinstance(n.func, ast.Attribute) and n.func.attr == "pop" and len(n.args) == 1 and isinstance(n.args[0], ast.Call):
+                idx_e, tgt_seq = n.args[0], ast.unparse(n.func.value)
+            if not (isinstance(idx_e, ast.Call) and isinstance(idx_e.func, ast.Attribute) and idx_e.func.attr == "pop" and isinstance(idx_e.func.value, ast.Name)):
+                continue
+            work = idx_e.func.value
+            pos = _positions_of(fn, work, 0, p)
+            if pos is None:
+                continue
+            seq, desc = pos
+            aliases = {seq}
+            for nm in [x for x in ast.walk(fn.node) if isinstance(x, ast.Assign) and len(x.targets) == 1 and isinstance(x.targets[0], ast.Name) and ast.unparse(x.value) == seq]:
+                aliases.add(nm.targets[0].id)
+            if tgt_seq not in aliases:
+                # (positions of `self._list` used on its alias `pairs = self._list`)
+                defs = [ast.unparse(x.value) for x in ast.walk(fn.node) if isinstance(x, ast.Assign) and len(x.targets) == 1 and ast.unparse(x.targets[0]) == tgt_seq]
+                if not (defs and all(d in aliases or d == seq for d in defs)) and not any(ast.unparse(x.value) == tgt_seq and isinstance(x.targets[0], ast.Name) and x.targets[0].id == seq for x in ast.walk(fn.node) if isinstance(x, ast.Assign) and len(x.targets) == 1):
+                    continue
+            flips = 0
+            unknown = False
+            for x in ast.walk(fn.node):
+                if isinstance(x, ast.Call) and isinstance(x.func, ast.Attribute) and isinstance(x.func.value, ast.Name) and x.func.value.id == work.id and x is not idx_e:
+                    if x.func.attr == "reverse" and getattr(x, "lineno", 0) < loop.lineno:
+                        flips += 1
+                    elif x.func.attr == "sort":
+                        rev = next((k.value for k in x.keywords if k.arg == "reverse"), None)
+                        desc, flips = (isinstance(rev, ast.Constant) and bool(rev.value)), 0
+                    elif x.func.attr in ("append", "insert", "extend", "remove", "reverse"):
+                        unknown = True
+            if unknown:
+                continue
+            order_desc = desc ^ (flips % 2 == 1)
+            from_front = bool(idx_e.args) and isinstance(idx_e.args[0], ast.Constant) and idx_e.args[0].value == 0
+            from_back = not idx_e.args or (isinstance(idx_e.args[0], ast.Constant) and idx_e.args[0].value == -1)
+            if not (from_front or from_back):
+                continue
+            consumed_desc = order_desc if from_front else not order_desc
+            if consumed_desc:
+                out.append((n, f"positions of {seq} are consumed from a work list in descending order while elements are deleted by position", True))
+            else:
+                out.append((n, f"positions of {seq} are consumed from a work list in ascending order (`{' '.join(ast.unparse(n).split())[:50]}`) while elements are deleted by position", False))
     return out
 
 
